@@ -1,7 +1,7 @@
 (* GENERATED on every run by harness/translate/pysrc.py from the Python sources of the tree
    under test — do not edit.  Each definition is the translation of one function's source text;
-   Proofs/GenEq.v proves it equal to the hand-written model for all inputs. *)
-From CG Require Import Model.Loop.
+   Proofs/GenEq*.v prove it equal to the hand-written model for all inputs. *)
+From CG Require Import Model.Loop Model.Recur Model.Cache.
 
 
 (* calgebra/interval.py: Interval.finite_start *)
@@ -113,47 +113,32 @@ Definition g_merged_fetch_forward (source_fetch : option Z -> option Z -> bool -
       let out := @nil ivl in
       match current with
       | Some current =>
-        if ((is_none (en current)) || (is_none (st interval_))) then
-          let can_merge := true in
-          if can_merge then
-            let new_end := (en current) in
+        let can_merge :=
+          if ((is_none (en current)) || (is_none (st interval_))) then
+            let can_merge := true in
+            can_merge
+          else
+            let gap_ := ((ozd (st interval_)) - (ozd (en current))) in
+            let can_merge := (gap_ <=? self_gap) in
+            can_merge in
+        if can_merge then
+          let new_end := (en current) in
+          let new_end :=
             if ((is_none new_end) || (is_none (en interval_))) then
               let new_end := None in
-              let current := (Some (set_span current (st current) new_end)) in
-              (out, current, Cont)
+              new_end
             else
               if ((ozd (en interval_)) >? (ozd new_end)) then
                 let new_end := (en interval_) in
-                let current := (Some (set_span current (st current) new_end)) in
-                (out, current, Cont)
+                new_end
               else
-                let current := (Some (set_span current (st current) new_end)) in
-                (out, current, Cont)
-          else
-            let out := out ++ [current] in
-            let current := (Some interval_) in
-            (out, current, Cont)
+                new_end in
+          let current := (Some (set_span current (st current) new_end)) in
+          (out, current, Cont)
         else
-          let gap_ := ((ozd (st interval_)) - (ozd (en current))) in
-          let can_merge := (gap_ <=? self_gap) in
-          if can_merge then
-            let new_end := (en current) in
-            if ((is_none new_end) || (is_none (en interval_))) then
-              let new_end := None in
-              let current := (Some (set_span current (st current) new_end)) in
-              (out, current, Cont)
-            else
-              if ((ozd (en interval_)) >? (ozd new_end)) then
-                let new_end := (en interval_) in
-                let current := (Some (set_span current (st current) new_end)) in
-                (out, current, Cont)
-              else
-                let current := (Some (set_span current (st current) new_end)) in
-                (out, current, Cont)
-          else
-            let out := out ++ [current] in
-            let current := (Some interval_) in
-            (out, current, Cont)
+          let out := out ++ [current] in
+          let current := (Some interval_) in
+          (out, current, Cont)
       | None =>
         let current := (Some interval_) in
         (out, current, Cont)
@@ -168,3 +153,420 @@ Definition g_merged_fetch_forward (source_fetch : option Z -> option Z -> bool -
         out
       end)
     current (source_fetch start end_ false).
+
+(* calgebra/recurrence.py: RecurringPattern._fetch_forward *)
+Definition g_recur_fetch_forward {DT : Type} (self_freq : freq) (self_interval : Z) (self_duration_seconds : Z) (self_exdates : list Z) (dt_fromtimestamp : Z -> DT) (get_safe_anchor : DT -> DT) (dt_midnight : DT -> DT) (rrule_of : DT -> list DT) (occurrence_to_interval : DT -> ivl) (start : option Z) (end_ : option Z) : res (list ivl) :=
+  match start with
+  | Some start =>
+    let lookback_buffer := self_duration_seconds in
+    let lookback_buffer :=
+      if (freq_eqb self_freq Daily) then
+        let lookback_buffer := (lookback_buffer + (self_interval * 86400)) in
+        lookback_buffer
+      else
+        if (freq_eqb self_freq Weekly) then
+          let lookback_buffer := (lookback_buffer + (self_interval * 604800)) in
+          lookback_buffer
+        else
+          if (freq_eqb self_freq Monthly) then
+            let lookback_buffer := (lookback_buffer + ((self_interval * 32) * 86400)) in
+            lookback_buffer
+          else
+            if (freq_eqb self_freq Yearly) then
+              let lookback_buffer := (lookback_buffer + ((self_interval * 366) * 86400)) in
+              lookback_buffer
+            else
+              lookback_buffer in
+    let lookback_start_ts := (start - lookback_buffer) in
+    let lookback_start_dt := (dt_fromtimestamp lookback_start_ts) in
+    let anchor_dt := (get_safe_anchor lookback_start_dt) in
+    let anchor_dt := (dt_midnight anchor_dt) in
+    let rules := (rrule_of anchor_dt) in
+    RDone (run_for
+      (fun _ occurrence =>
+        let out := @nil ivl in
+        let ivl_ := (occurrence_to_interval occurrence) in
+        if (match (st ivl_) with Some v_ => zmem v_ self_exdates | None => false end) then
+          (out, tt, Cont)
+        else
+          if ((negb (is_none (en ivl_))) && ((ozd (en ivl_)) <=? start)) then
+            (out, tt, Cont)
+          else
+            if ((negb (is_none end_)) && (negb (is_none (st ivl_))) && ((ozd (st ivl_)) >? (ozd end_))) then
+              (out, tt, Brk)
+            else
+              let out := out ++ [ivl_] in
+              (out, tt, Cont))
+      (fun _ =>
+        let out := @nil ivl in
+        out)
+      tt rules)
+  | None =>
+    (RRaise ValueError)
+  end.
+
+(* calgebra/recurrence.py: RecurringPattern._fetch_reverse *)
+Definition g_recur_fetch_reverse (fuel : nat) (self_freq : freq) (fetch_forward : Z -> Z -> list ivl) (start : option Z) (end_ : option Z) : res (list ivl) :=
+  match end_ with
+  | Some end_ =>
+    let chunk_size :=
+      if (freq_eqb self_freq Daily) then
+        let chunk_size := (30 * 86400) in
+        chunk_size
+      else
+        if (freq_eqb self_freq Weekly) then
+          let chunk_size := (12 * 604800) in
+          chunk_size
+        else
+          if (freq_eqb self_freq Monthly) then
+            let chunk_size := (365 * 86400) in
+            chunk_size
+          else
+            let chunk_size := ((5 * 365) * 86400) in
+            chunk_size in
+    let current_end := end_ in
+    let effective_start := (match start with Some start => start | None => (end_ - ((10 * 365) * 86400)) end) in
+    run_while fuel
+      (fun current_end => (current_end >? effective_start))
+      (fun current_end =>
+        let out := @nil ivl in
+        let chunk_start := (Z.max effective_start (current_end - chunk_size)) in
+        let chunk := (filter (fun ivl_ => ((((ozd (st ivl_)) <? current_end) || (current_end =? end_)) && (((ozd (st ivl_)) >=? chunk_start) || (chunk_start =? effective_start)))) (fetch_forward chunk_start current_end)) in
+        let out := out ++ (rev chunk) in
+        let current_end := chunk_start in
+        if ((negb (is_none start)) && (current_end <=? (ozd start))) then
+          (out, current_end, Brk)
+        else
+          (out, current_end, Cont))
+      (fun current_end =>
+        let out := @nil ivl in
+        out)
+      current_end
+  | None =>
+    (RRaise ValueError)
+  end.
+
+(* calgebra/recurrence.py: RecurringPattern._get_safe_anchor *)
+Definition g_recur_safe_anchor {DT : Type} {DATE : Type} {TD : Type} (fuel : nat) (self_freq : freq) (self_interval : Z) (self_anchor_timestamp : option Z) (self_epoch : DT) (dt_fromtimestamp : Z -> DT) (dt_make : Z -> Z -> Z -> DT) (dt_date : DT -> DATE) (date_sub : DATE -> DATE -> TD) (td_days : TD -> Z) (td_of_days : Z -> TD) (td_of_weeks : Z -> TD) (dt_add : DT -> TD -> DT) (dt_year : DT -> Z) (dt_month : DT -> Z) (dt_replace_ym : DT -> Z -> Z -> option DT) (dt_replace_y : DT -> Z -> option DT) (start_dt : DT) : res DT :=
+  let base_anchor :=
+    if (negb (is_none self_anchor_timestamp)) then
+      let base_anchor := (dt_fromtimestamp (ozd self_anchor_timestamp)) in
+      base_anchor
+    else
+      if (freq_eqb self_freq Weekly) then
+        let base_anchor := (dt_make 1969 12 29) in
+        base_anchor
+      else
+        let base_anchor := self_epoch in
+        base_anchor in
+  if (freq_eqb self_freq Daily) then
+    let delta_days := (td_days (date_sub (dt_date start_dt) (dt_date base_anchor))) in
+    let offset := (delta_days mod self_interval) in
+    let aligned_days := (delta_days - offset) in
+    (RDone (dt_add base_anchor (td_of_days aligned_days)))
+  else
+    if (freq_eqb self_freq Weekly) then
+      let delta_days := (td_days (date_sub (dt_date start_dt) (dt_date base_anchor))) in
+      let weeks := (delta_days / 7) in
+      let offset := (weeks mod self_interval) in
+      let aligned_weeks := (weeks - offset) in
+      (RDone (dt_add base_anchor (td_of_weeks aligned_weeks)))
+    else
+      if (freq_eqb self_freq Monthly) then
+        let delta_years := ((dt_year start_dt) - (dt_year base_anchor)) in
+        let delta_months := ((dt_month start_dt) - (dt_month base_anchor)) in
+        let total_months := ((delta_years * 12) + delta_months) in
+        let offset := (total_months mod self_interval) in
+        let target_total := (total_months - offset) in
+        let abs_total := (((((dt_year base_anchor) * 12) + (dt_month base_anchor)) - 1) + target_total) in
+        let year := (abs_total / 12) in
+        let month := ((abs_total mod 12) + 1) in
+        iter_while fuel
+          (fun '(abs_total, year, month) => true)
+          (fun '(abs_total, year, month) =>
+            match (dt_replace_ym base_anchor year month) with
+            | Some v_ =>
+              (SRet (RDone v_))
+            | None =>
+              if (year <? 1) then
+                (SRet (RRaise ValueError))
+              else
+                let abs_total := (abs_total - self_interval) in
+                let year := (abs_total / 12) in
+                let month := ((abs_total mod 12) + 1) in
+                (SCont (abs_total, year, month))
+            end)
+          (fun '(abs_total, year, month) =>
+            (RDone start_dt))
+          (abs_total, year, month)
+      else
+        if (freq_eqb self_freq Yearly) then
+          let delta_years := ((dt_year start_dt) - (dt_year base_anchor)) in
+          let offset := (delta_years mod self_interval) in
+          let year := ((dt_year start_dt) - offset) in
+          iter_while fuel
+            (fun year => true)
+            (fun year =>
+              match (dt_replace_y base_anchor year) with
+              | Some v_ =>
+                (SRet (RDone v_))
+              | None =>
+                if (year <? 1) then
+                  (SRet (RRaise ValueError))
+                else
+                  let year := (year - self_interval) in
+                  (SCont year)
+              end)
+            (fun year =>
+              (RDone start_dt))
+            year
+        else
+          (RDone start_dt).
+
+(* calgebra/cache.py: CachedTimeline._purge_sink *)
+Definition g_cache_purge_sink (self_sink : list ivl) (start : Z) (end_ : Z) : (list ivl) :=
+  let affected := (fetch_static self_sink (Some start) (Some end_) false) in
+  iter_for
+    (fun self_sink ivl_ =>
+      let self_sink := (sl_remove ivl_ self_sink) in
+      let self_sink :=
+        if ((negb (is_none (st ivl_))) && ((ozd (st ivl_)) <? start)) then
+          let left_ := (set_span ivl_ (st ivl_) (Some start)) in
+          let self_sink := (sl_add left_ self_sink) in
+          self_sink
+        else
+          self_sink in
+      if ((negb (is_none (en ivl_))) && ((ozd (en ivl_)) >? end_)) then
+        let right_ := (set_span ivl_ (Some end_) (en ivl_)) in
+        let self_sink := (sl_add right_ self_sink) in
+        (SCont self_sink)
+      else
+        (SCont self_sink))
+    (fun self_sink =>
+      self_sink)
+    self_sink affected.
+
+(* calgebra/cache.py: CachedTimeline._fill_gap *)
+Definition g_cache_fill_gap_clip {KEYS : Type} (self_sink : list ivl) (self_key_validated : bool) (self_key_fields : option KEYS) (source_fetch : option Z -> option Z -> bool -> list ivl) (gap_start : Z) (gap_end : Z) : (list ivl * bool) :=
+  iter_for
+    (fun '(self_sink, self_key_validated) ivl_ =>
+      let self_key_validated :=
+        if ((negb self_key_validated) && (negb (is_none self_key_fields))) then
+          let self_key_validated := true in
+          self_key_validated
+        else
+          self_key_validated in
+      let clipped_start := (st ivl_) in
+      let clipped_end := (en ivl_) in
+      let clipped_start :=
+        if ((is_none (st ivl_)) || ((ozd (st ivl_)) <? gap_start)) then
+          let clipped_start := gap_start in
+          (Some clipped_start)
+        else
+          clipped_start in
+      let clipped_end :=
+        if ((is_none (en ivl_)) || ((ozd (en ivl_)) >? gap_end)) then
+          let clipped_end := gap_end in
+          (Some clipped_end)
+        else
+          clipped_end in
+      if ((negb (is_none clipped_start)) && (negb (is_none clipped_end))) then
+        if ((ozd clipped_start) >=? (ozd clipped_end)) then
+          (SCont (self_sink, self_key_validated))
+        else
+          let ivl_ :=
+            if ((negb (oZ_eqb clipped_start (st ivl_))) || (negb (oZ_eqb clipped_end (en ivl_)))) then
+              let ivl_ := (set_span ivl_ clipped_start clipped_end) in
+              ivl_
+            else
+              ivl_ in
+          let self_sink := (sl_add ivl_ self_sink) in
+          (SCont (self_sink, self_key_validated))
+      else
+        let ivl_ :=
+          if ((negb (oZ_eqb clipped_start (st ivl_))) || (negb (oZ_eqb clipped_end (en ivl_)))) then
+            let ivl_ := (set_span ivl_ clipped_start clipped_end) in
+            ivl_
+          else
+            ivl_ in
+        let self_sink := (sl_add ivl_ self_sink) in
+        (SCont (self_sink, self_key_validated)))
+    (fun '(self_sink, self_key_validated) =>
+      (self_sink, self_key_validated))
+    (self_sink, self_key_validated) (source_fetch (Some gap_start) (Some gap_end) false).
+
+(* calgebra/cache.py: CachedTimeline._evict_expired *)
+Definition g_cache_evict_expired (fuel : nat) (clock_now : Z) (self_expiry_heap : list hent) (self_cover : list cov) (self_sink : list ivl) : res (list hent * list cov * list ivl) :=
+  let now_ := (clock_now) in
+  iter_while fuel
+    (fun '(self_expiry_heap, self_sink, self_cover) => ((nonempty self_expiry_heap) && ((fst (fst (py_index (0, 0%N, mkCov 0 0 0) self_expiry_heap 0))) <=? now_)))
+    (fun '(self_expiry_heap, self_sink, self_cover) =>
+      let '(_, _, cover_) := (hd (0, 0%N, mkCov 0 0 0) self_expiry_heap) in
+      let self_expiry_heap := (tl self_expiry_heap) in
+      if (existsb (cov_eqb cover_) self_cover) then
+        let self_cover := (cov_remove cover_ self_cover) in
+        let self_sink := (g_cache_purge_sink self_sink (cv_s cover_) (cv_e cover_)) in
+        (SCont (self_expiry_heap, self_sink, self_cover))
+      else
+        (SCont (self_expiry_heap, self_sink, self_cover)))
+    (fun '(self_expiry_heap, self_sink, self_cover) =>
+      (RDone (self_expiry_heap, self_cover, self_sink)))
+    (self_expiry_heap, self_sink, self_cover).
+
+(* calgebra/mutable/memory.py: MemoryTimeline._fetch_static *)
+Definition g_mem_fetch_static (self_static_intervals : list ivl) (start : option Z) (end_ : option Z) (reverse : bool) : list ivl :=
+  let out := @nil ivl in
+  if (negb (nonempty self_static_intervals)) then
+    out
+  else
+    let end_idx := (Z.of_nat (length self_static_intervals)) in
+    let end_idx :=
+      match end_ with
+      | Some end_ =>
+        let end_idx := (bisect_right (fun interval_ => (fstart interval_)) self_static_intervals end_) in
+        end_idx
+      | None =>
+        end_idx
+      end in
+    let matching := (@nil ivl) in
+    run_for
+      (fun matching i =>
+        let out := @nil ivl in
+        let interval_ := (py_index (mkI None None Plain) self_static_intervals i) in
+        if ((negb (is_none start)) && ((fend interval_) <=? (ozd start))) then
+          (out, matching, Cont)
+        else
+          let matching := (matching ++ [interval_]) in
+          (out, matching, Cont))
+      (fun matching =>
+        let out := @nil ivl in
+        if reverse then
+          let out := out ++ (rev matching) in
+          out
+        else
+          let out := out ++ matching in
+          out)
+      matching (zrange end_idx).
+
+(* calgebra/core.py: Difference._sweep *)
+Definition g_diff_sweep (fuel : nat) (source_stream : list ivl) (sub_streams : list (list ivl)) : res (list ivl) :=
+  let merged := (merge_by lt_fwd sub_streams) in
+  let subtractor_iter := merged in
+  let '(subtractor_iter, current_subtractor) :=
+    match subtractor_iter with
+    | v_ :: it_ =>
+      let current_subtractor := (Some v_) in
+      let subtractor_iter := it_ in
+        (subtractor_iter, current_subtractor)
+    | [] =>
+      let current_subtractor := None in
+      (subtractor_iter, current_subtractor)
+    end in
+  run_for_o
+    (fun '(subtractor_iter, current_subtractor) event =>
+      let out := @nil ivl in
+      match current_subtractor with
+      | Some current_subtractor =>
+        let cursor := (fstart event) in
+        let event_end := (fend event) in
+        match sub_while fuel
+            (fun '(subtractor_iter, current_subtractor) => ((negb (is_none current_subtractor)) && ((fend (oivld current_subtractor)) <? cursor)))
+            (fun '(subtractor_iter, current_subtractor) =>
+              let out := @nil ivl in
+              match subtractor_iter with
+              | v_ :: it_ =>
+                let current_subtractor := (Some v_) in
+                let subtractor_iter := it_ in
+                  (out, (subtractor_iter, current_subtractor), true)
+              | [] =>
+                let current_subtractor := None in
+                (out, (subtractor_iter, current_subtractor), true)
+              end)
+            (subtractor_iter, (Some current_subtractor)) with
+        | None => None
+        | Some (out1_, (subtractor_iter, current_subtractor)) =>
+          let out := out ++ out1_ in
+          match current_subtractor with
+          | Some current_subtractor =>
+            match sub_while fuel
+                (fun '(cursor, subtractor_iter, current_subtractor) => ((negb (is_none current_subtractor)) && ((fstart (oivld current_subtractor)) <=? event_end)))
+                (fun '(cursor, subtractor_iter, current_subtractor) =>
+                  let out := @nil ivl in
+                  let overlap_start := (Z.max cursor (fstart (oivld current_subtractor))) in
+                  let overlap_end := (Z.min event_end (fend (oivld current_subtractor))) in
+                  if (overlap_start <? overlap_end) then
+                    if (cursor <? overlap_start) then
+                      let start_val := (if (negb (cursor =? NEG_INF)) then (Some cursor) else None) in
+                      let end_val := (if (negb (overlap_start =? NEG_INF)) then (Some overlap_start) else None) in
+                      let out := out ++ [(set_span event start_val end_val)] in
+                      let cursor := overlap_end in
+                      if (cursor >=? event_end) then
+                        (out, (cursor, subtractor_iter, current_subtractor), false)
+                      else
+                        if ((fend (oivld current_subtractor)) <=? event_end) then
+                          match subtractor_iter with
+                          | v_ :: it_ =>
+                            let current_subtractor := (Some v_) in
+                            let subtractor_iter := it_ in
+                              (out, (cursor, subtractor_iter, current_subtractor), true)
+                          | [] =>
+                            let current_subtractor := None in
+                            (out, (cursor, subtractor_iter, current_subtractor), true)
+                          end
+                        else
+                          (out, (cursor, subtractor_iter, current_subtractor), false)
+                    else
+                      let cursor := overlap_end in
+                      if (cursor >=? event_end) then
+                        (out, (cursor, subtractor_iter, current_subtractor), false)
+                      else
+                        if ((fend (oivld current_subtractor)) <=? event_end) then
+                          match subtractor_iter with
+                          | v_ :: it_ =>
+                            let current_subtractor := (Some v_) in
+                            let subtractor_iter := it_ in
+                              (out, (cursor, subtractor_iter, current_subtractor), true)
+                          | [] =>
+                            let current_subtractor := None in
+                            (out, (cursor, subtractor_iter, current_subtractor), true)
+                          end
+                        else
+                          (out, (cursor, subtractor_iter, current_subtractor), false)
+                  else
+                    if ((fend (oivld current_subtractor)) <=? event_end) then
+                      match subtractor_iter with
+                      | v_ :: it_ =>
+                        let current_subtractor := (Some v_) in
+                        let subtractor_iter := it_ in
+                          (out, (cursor, subtractor_iter, current_subtractor), true)
+                      | [] =>
+                        let current_subtractor := None in
+                        (out, (cursor, subtractor_iter, current_subtractor), true)
+                      end
+                    else
+                      (out, (cursor, subtractor_iter, current_subtractor), false))
+                (cursor, subtractor_iter, (Some current_subtractor)) with
+            | None => None
+            | Some (out1_, (cursor, subtractor_iter, current_subtractor)) =>
+              let out := out ++ out1_ in
+              if (cursor <? event_end) then
+                let start_val := (if (negb (cursor =? NEG_INF)) then (Some cursor) else None) in
+                let end_val := (if (negb (event_end =? POS_INF)) then (Some event_end) else None) in
+                let out := out ++ [(set_span event start_val end_val)] in
+                Some (out, (subtractor_iter, current_subtractor), Cont)
+              else
+                Some (out, (subtractor_iter, current_subtractor), Cont)
+            end
+          | None =>
+            let out := out ++ [event] in
+            Some (out, (subtractor_iter, current_subtractor), Cont)
+          end
+        end
+      | None =>
+        let out := out ++ [event] in
+        Some (out, (subtractor_iter, current_subtractor), Cont)
+      end)
+    (fun '(subtractor_iter, current_subtractor) =>
+      let out := @nil ivl in
+      out)
+    (subtractor_iter, current_subtractor) source_stream.
